@@ -102,7 +102,8 @@ def handleAnderson (rest : List String) : Option String := do
     pure (depth, r, dim, calls) : P _).run rest
   let toV : List Rat → Anderson.V := fun l i => l.getD i 0
   let (_, outs) := ((List.range calls.length).zip calls).foldl (fun (acc : Anderson.St × List String) (k, (g, f, gm)) =>
-    let (x, st') := Anderson.call depth restart (fun _ _ => gm) acc.1 (toV g) (toV f) k
+    -- the stubbed least-squares routine returns as many of the given weights as it is handed (active) columns
+    let (x, st') := Anderson.callFiltered dim depth restart (fun F _ => gm.take F.length) acc.1 (toV g) (toV f) k
     (st', acc.2 ++ [showRats ((List.range dim).map x)])) (Anderson.reset depth, [])
   pure (" | ".intercalate outs)
 
